@@ -130,3 +130,20 @@ Proof.
       (split; [exact Ei|]); (split; [exact Ej|]); apply edit_within; exact H. }
   unfold linked. split; intros [EC C]; (split; [exact EC|]); revert C; apply clos_rst_ext; intros a b; apply G.
 Qed.
+
+(* ------------------------------------------------------------------ *)
+(* normalised edit distance, complete linkage: any two words of a cognate set
+   are within the threshold (declarative Levenshtein distance / longer length) *)
+From LV Require Import Cognates.LexDeepen.
+
+Theorem editdist_complete_diameter w thr wl out :
+  NoDup (map rid wl) -> lexq Complete thr (DEdit w) wl = Some out ->
+  forall c i j ci, In c (concepts wl) -> i < j -> j < length (indices wl c) ->
+    In (nth i (indices wl c) 0, ci) out -> In (nth j (indices wl c) 0, ci) out ->
+    exists d, is_lev nat Nat.eqb (word_of w (nth i (indices wl c) 0)) (word_of w (nth j (indices wl c) 0)) d /\
+              lev_within d (word_of w (nth i (indices wl c) 0)) (word_of w (nth j (indices wl c) 0)) thr.
+Proof.
+  intros ND E c i j ci Hc Lij Hj I1 I2. apply edit_within.
+  exact (complete_linkage_diameter Q qleb (linkf Complete) 0%Q hundred (dist_of (DEdit w)) thr qmax_spec
+           wl out ND E c i j ci Hc Lij Hj I1 I2).
+Qed.
